@@ -304,12 +304,18 @@ impl<S: LexemeSink> StateMachineActions for Lexer<S> {
     fn finish_attr_name(&mut self, _context: &mut ParserContext<S>, _input: &[u8]) {
         if let Some(AttributeOutline {
             ref mut name,
+            ref mut value,
             ref mut raw_range,
-            ..
         }) = self.current_attr
         {
             *name = get_token_part_range!(self);
             *raw_range = *name;
+            // NOTE: an attribute without a value has the empty value located right after its
+            // name, so that it gets re-based together with the name when the tag spans chunks.
+            *value = Range {
+                start: name.end,
+                end: name.end,
+            };
         }
     }
 
